@@ -770,6 +770,7 @@ def check_gaps(run: Run, prog: Program) -> None:
     check_gap_cases(run, prog)
     check_gap_bounds(run, prog)
     check_remove_gap(run, prog)
+    check_cleanup(run, prog)
     check_fill_stores(run, prog)
 
 
@@ -1466,6 +1467,105 @@ def check_remove_gap(run: Run, prog: Program) -> None:  # noqa: C901
     _floor(run, fn.qual, n >= 4, f"{fn.qual}: only {n} paths with a gap found")
 
 
+def check_cleanup(run: Run, prog: Program) -> None:  # noqa: C901
+    """C09.GAP: _cleanup_gaps sorts the gaps by start and then walks them with an index; each step of the walk
+    is locally sound (a gap is dropped only if it ended before the window, trimmed only if it starts before it,
+    its successor dropped only if contained or after being merged into it, merged only if it overlaps or
+    touches), makes progress (changes the list xor advances by one) and advances only past a gap that needs
+    nothing.  (That the result is then sorted and disjoint is the inductive part and stays undecided.)"""
+    fn = prog.func(f"{BUF}:OrderedRingBuffer._cleanup_gaps")
+    run.analysed(fn.qual)
+    gaps = "self._gaps"
+    paths = ordered_paths(prog, fn)
+    loops = [(p, e) for p in paths for e in p.effects if e.kind == "loop"]
+    if len(loops) != 1 or not isinstance(loops[0][1].orig, ast.While):
+        raise AnalysisError(f"{fn.qual}: expected one index walk over the gap list")
+    p0, loop = loops[0]
+    where0 = _where(fn, p0)
+    # sorted by start first
+    sort_ok = False
+    for i, tgt, val, _line in writes(p0):
+        if i < index_of(p0, loop) and u(tgt) == gaps and isinstance(val, ast.Call) and u(val.func) == "sorted" \
+                and [u(a) for a in val.args] == [gaps]:
+            key = next((k.value for k in val.keywords if k.arg == "key"), None)
+            rev = next((k.value for k in val.keywords if k.arg == "reverse"), None)
+            if isinstance(key, ast.Lambda) and len(key.args.args) == 1 and rev is None \
+                    and u(key.body) in (f"{key.args.args[0].arg}.start", f"{key.args.args[0].arg}.start.timestamp()"):
+                sort_ok = True
+    for c in p0.calls(lambda c: method_call(c, gaps, "sort")):
+        sort_ok = sort_ok or index_of(p0, c) < index_of(p0, loop)
+    run.check(sort_ok, "C09.GAP", fn.qual, "self._gaps = sorted(self._gaps, key=start)",
+              "the gaps are not sorted by their start before neighbours are compared and merged", **where0)
+    test = loop.orig.test  # type: ignore[union-attr]
+    ck = canon(test)
+    ivar = ck[1] if isinstance(ck, tuple) and len(ck) == 3 and ck[0] == "<" and ck[2] == f"len({gaps})" else None
+    entry = getattr(loop, "entry", {})
+    ok = ivar is not None and ivar in entry and u(entry[ivar]) == "0"
+    run.check(ok, "C09.GAP", fn.qual, "i = 0; while i < len(self._gaps)",
+              "the walk does not visit every gap (from the first one, while the index is inside the list)", **where0)
+    if not ok:
+        return
+    w1, w2 = f"{gaps}[{ivar}]", f"{gaps}[{ivar} + 1]"
+    has_next = ("<", ivar, f"len({gaps}) - 1")
+    q0 = Path()
+    q0.env = dict(getattr(loop, "env", {}))
+    n = 0
+    for p, _st in OrderedSymExec(4096, prog, fn).block(q0, list(loop.orig.body)):  # type: ignore[union-attr]
+        if p.exit == "raise" or truth(p, "None") is True:
+            continue
+        n += 1
+        where = _where(fn, p)
+        muts: list[tuple[int, str, str, ast.AST | None]] = []
+        for i, e in enumerate(p.effects):
+            if e.kind == "write" and self_attr_root(e.node.elts[0]) == "_gaps":  # type: ignore[attr-defined]
+                muts.append((i, "set", u(e.node.elts[0]), e.node.elts[1]))  # type: ignore[attr-defined]
+            elif e.kind == "del" and self_attr_root(e.node) == "_gaps":
+                muts.append((i, "del", u(e.node), None))
+            elif e.kind == "call" and MutationSummary(prog, _ring(prog)).of_call(e.node) & {"_gaps"}:  # type: ignore[arg-type]
+                muts.append((i, "call", u(e.node), None))
+        adv = u(p.env[ivar]) if ivar in p.env else ivar
+        texts = " ".join(t for _i, _k, t, _v in muts) + " " + " ".join(u(v) for _i, _k, _t, v in muts if v is not None) \
+            + " " + " ".join(u(e.node) for e in p.effects if e.kind == "cond")
+        if w2 in texts:
+            run.check(decided(p, has_next) is True, "C09.GAP", fn.qual, f"{w2} only while {ivar} < len - 1",
+                      "the successor of the current gap is looked at although the current gap is not established to "
+                      "have one", **where)
+        if not muts:
+            done = entails_lt(p, OLDEST_F, f"{w1}.end") and entails_le(p, OLDEST_F, f"{w1}.start") and (
+                decided(p, has_next) is False or truth(p, w2) is False or entails_lt(p, f"{w1}.end", f"{w2}.start"))
+            run.check(adv == f"{ivar} + 1" and done, "C09.GAP", fn.qual, f"{ivar} += 1 past a gap that needs nothing",
+                      "the walk leaves a gap without changing the list although it is not established that the gap "
+                      "lies inside the window and neither overlaps nor touches its successor -- or it does not "
+                      f"advance by exactly one (index becomes `{adv}`): outdated / overlapping gaps are reported, "
+                      "or the walk never ends", **where)
+            continue
+        ok, what = adv == ivar, "the list is changed and the index moved in the same step (a gap is skipped)"
+        merged = False
+        for i, kind, tgt, val in muts:
+            if not ok:
+                break
+            if kind == "del" and tgt == w1:
+                ok, what = entails_le(p, f"{w1}.end", OLDEST_F, i), "a gap is dropped although it is not established to end before the window"
+            elif kind == "set" and tgt == f"{w1}.start":
+                ok = u(val) == OLDEST_F and entails_lt(p, f"{w1}.start", OLDEST_F, i)
+                what = "a gap's start is moved although it is not established to start before the window (or not to the oldest slot)"
+            elif kind == "set" and tgt == f"{w1}.end":
+                ok = u(val) == f"{w2}.end" and truth(p, w2, i) is True and entails_le(p, f"{w2}.start", f"{w1}.end", i) and (
+                    entails_le(p, f"{w1}.end", f"{w2}.end", i) or (sort_ok and entails_lt(p, f"{w2}.start", f"{w1}.start", i)))
+                what = ("a gap is extended to its successor's end although the two are not established to overlap or "
+                        "touch, or the successor could end earlier (missing slots become valid)")
+                merged = ok
+            elif kind == "del" and tgt == w2:
+                ok = truth(p, w2, i) is True and (merged or (
+                    entails_le(p, f"{w1}.start", f"{w2}.start", i) and entails_le(p, f"{w2}.end", f"{w1}.end", i)))
+                what = "the successor gap is dropped although it is neither contained in the current gap nor merged into it"
+            else:
+                ok, what = False, f"gap-list operation `{tgt[:50]}` not understood"
+        run.check(ok, "C09.GAP", fn.qual, f"step: {', '.join(f'{k} {t}' for _i, k, t, _v in muts)[:80]}",
+                  f"{what}: the gap list no longer describes the missing slots of the window", **where)
+    _floor(run, fn.qual, n >= 5, f"{fn.qual}: only {n} steps of the walk found")
+
+
 def check_fill_stores(run: Run, prog: Program) -> None:
     """C09.GAP: inside _fill_gaps every gap with a non-empty clamped slot range is written, with exactly as many
     fill values as the range has slots, in the container's own way."""
@@ -1537,6 +1637,14 @@ def check_window_cases(run: Run, prog: Program) -> None:  # noqa: C901
             and [u(x) for x in base.args] == ["self.count_covered()"] and not base.keywords \
             and u(base.func.value) == f"slice({start}, {end})"
 
+    def raw_use(x: ast.AST) -> bool:
+        """Does x mention a query bound outside `slice(start, end)`?"""
+        inside: set[int] = set()
+        for c in ast.walk(x):
+            if isinstance(c, ast.Call) and u(c) == f"slice({start}, {end})":
+                inside |= {id(n) for n in ast.walk(c)}
+        return any(isinstance(n, ast.Name) and n.id in (start, end) and id(n) not in inside for n in ast.walk(x))
+
     fetch = 0
     for p in paths:
         for w in p.calls(lambda c: method_call(c, None, "_wrapped_buffer_window")):
@@ -1552,11 +1660,14 @@ def check_window_cases(run: Run, prog: Program) -> None:  # noqa: C901
             a = _bound_args(prog, ws[0].node)  # type: ignore[arg-type]
             xs = _index_arg(prog, a.get(p_start), "self", wn.qual)
             xe = _index_arg(prog, a.get(p_end), "self", wn.qual)
-            conv = ["self.get_timestamp(" in u(x) for x in (xs, xe)]
-            if any(conv):
-                ok = all(conv) and ks is False and ke is False and projected(xs, 0) and projected(xe, 1)
+            conv = [c.node for c in p.calls(lambda c: method_call(c, "self", "get_timestamp"))]
+            if ks is False and ke is False:
+                # both bounds are indices: each is projected, then converted, and the raw index is used nowhere else
+                ok = any(projected(c, 0) for c in conv) and any(projected(c, 1) for c in conv) \
+                    and all(projected(c, 0) or projected(c, 1) for c in conv) \
+                    and not raw_use(xs) and not raw_use(xe)
             else:
-                ok = ks is True and ke is True
+                ok = ks is True and ke is True and not conv
             run.check(ok, "C09.VALID", wn.qual, "index bounds -> slice(start, end).indices(count_covered()) -> get_timestamp",
                       "a query by index is not first projected on the covered range (None, negative and out-of-range "
                       "indices) and then converted to timestamps, or a query by datetime is converted: the query "
@@ -1569,6 +1680,11 @@ def check_window_cases(run: Run, prog: Program) -> None:  # noqa: C901
                           "stored data of missing slots", **where)
         elif p.exit == "return":
             ok = zero(p, "self.count_covered()") is True or any(entails_le(p, xe, xs) for xs, xe in pairs)
+            arr = truth(p, "isinstance(self._buffer, np.ndarray)")
+            if ok and p.ret is not None and u(p.ret) in ("np.array([])", "[]") and arr is not (u(p.ret) != "[]"):
+                run.violation("C09.VALID", wn.qual, f"return {u(p.ret)}",
+                              "the empty answer is not of the buffer's container type (list vs numpy array)", **where)
+                continue
             run.check(ok, "C09.VALID", wn.qual, "empty answer only for an empty buffer or an empty clamped range",
                       "window() answers with nothing although the buffer covers slots and the clamped query range "
                       "is not established to be empty", **where)
@@ -1589,6 +1705,12 @@ def check_window_cases(run: Run, prog: Program) -> None:  # noqa: C901
                       "force_copy=False only, IndexError for one datetime and one index only", **where)
     if not fetch or not pairs:
         raise AnalysisError(f"{wn.qual}: no path fetches data")
+    d_fill, d_copy = _default_of(wn, fv), _default_of(wn, fc)
+    ok = (isinstance(d_fill, ast.Constant) and d_fill.value is None) or (
+        isinstance(d_copy, ast.Constant) and d_copy.value is True)
+    run.check(ok, "C09.VALID", wn.qual, "defaults: fill_value given => force_copy=True",
+              "the default query asks for filled gaps without a copy, which window() refuses: every plain "
+              "window(start, end) raises", node=wn.node, file=wn.file)
 
 
 def check_range(run: Run, prog: Program) -> None:
@@ -1616,6 +1738,22 @@ def check_range(run: Run, prog: Program) -> None:
                   "newest is the exclusive end of a query) or wrap onto other slots", **_where(fn, p))
     if n < 3:
         raise AnalysisError(f"{fn.qual}: only {n} paths")
+    dflt = _default_of(fn, allow)
+    run.check(isinstance(dflt, ast.Constant) and dflt.value is False, "C09.VALID", fn.qual,
+              f"{allow}: bool = False", "the range check of to_internal_index is off unless asked for: update() and the "
+              "queries rely on it being on", node=fn.node, file=fn.file)
+
+
+def _default_of(fn: FuncInfo, name: str) -> ast.AST | None:
+    a = fn.node.args
+    pos = a.posonlyargs + a.args
+    for arg, d in zip(pos[len(pos) - len(a.defaults):], a.defaults):
+        if arg.arg == name:
+            return d
+    for arg, d in zip(a.kwonlyargs, a.kw_defaults):
+        if arg.arg == name:
+            return d
+    return None
 
 
 def check_rounding(run: Run, prog: Program) -> None:
@@ -1771,6 +1909,15 @@ CONTROLS = [
      "            if start_index < end_index:\n", "            if start_index > end_index:\n", "C09.GAP"),
     ("normalisation steps away from the nearest slot", BUF,
      "            num_samples += 1\n", "            num_samples -= 1\n", "C09.IDX"),
+    ("gaps inside the window dropped as outdated", BUF,
+     "            if w_1.end <= self._timestamp_oldest:\n", "            if w_1.end > self._timestamp_oldest:\n", "C09.GAP"),
+    ("gap walk never advances", BUF,
+     "            else:\n                i += 1\n", "            else:\n                i += 0\n", "C09.GAP"),
+    ("range check of to_internal_index off by default", BUF,
+     "allow_outside_range: bool = False", "allow_outside_range: bool = True", "C09.VALID"),
+    ("empty answer in the other container type", BUF,
+     "            return np.array([]) if isinstance(self._buffer, np.ndarray) else []\n",
+     "            return [] if isinstance(self._buffer, np.ndarray) else np.array([])\n", "C09.VALID"),
 ]
 
 
